@@ -10,9 +10,11 @@ MInit == l = 1 /\ viol = <<>> /\ ncells = 0 /\ unspec = 0 /\ done = FALSE /\ cel
 Step == LET e == Trace[l] IN
         /\ l <= Len(Trace) /\ l' = l + 1 /\ done' = FALSE /\ UNCHANGED cell
         /\ IF e.e = "rt.cell"
-           THEN LET ok == IF e.cell.kind = "route" THEN RouteObsOK(e.cell, e.obs) ELSE AdmitObsOK(e.cell, e.obs)
-                    want == IF e.cell.kind = "route" THEN [engine |-> Routed(e.cell.attach, PathOf(e.cell.shape, Mount(e.cell.attach).segs))]
-                            ELSE Verdict(e.cell, CfgOf(e.cell))
+           THEN LET ok == CASE e.cell.kind = "route" -> RouteObsOK(e.cell, e.obs) [] e.cell.kind = "wtadmit" -> WtObsOK(e.cell, e.obs)
+                                  [] OTHER -> AdmitObsOK(e.cell, e.obs)
+                    want == CASE e.cell.kind = "route" -> [engine |-> Routed(e.cell.attach, PathOf(e.cell.shape, Mount(e.cell.attach).segs))]
+                              [] e.cell.kind = "wtadmit" -> [x |-> 0]
+                              [] OTHER -> Verdict(e.cell, CfgOf(e.cell))
                 IN /\ viol' = IF ok THEN viol ELSE Append(viol, [scn |-> e.scn, line |-> l, prop |-> "C05",
                                                                   clause |-> IF e.cell.kind = "route" THEN "routing" ELSE "admission",
                                                                   cell |-> e.cell, obs |-> e.obs, want |-> want])
